@@ -31,11 +31,30 @@ def restore(*learners) -> Iterator[None]:
     # A learner's pickled state (__getstate__) holds its data but, for most
     # learners, neither the pending points nor anything derived from them, and
     # may alias live containers; snapshot the complete attribute dictionaries.
-    states = [deepcopy(learner.__dict__) for learner in learners]
+    # The same holds for the learners inside a wrapper (the learner of a
+    # DataSaver, the children of a BalancingLearner): they are snapshotted
+    # in the same way and kept by reference in the snapshot of their wrapper.
+    nested = []
+    todo = list(learners)
+    while todo:
+        learner = todo.pop()
+        if any(learner is other for other in nested):
+            continue
+        nested.append(learner)
+        inner = learner.__dict__.get("learner")
+        if hasattr(inner, "ask") and hasattr(inner, "tell"):
+            todo.append(inner)
+        todo.extend(
+            child
+            for child in learner.__dict__.get("learners") or ()
+            if hasattr(child, "ask") and hasattr(child, "tell")
+        )
+    memo = {id(learner): learner for learner in nested}
+    states = [deepcopy(learner.__dict__, memo) for learner in nested]
     try:
         yield
     finally:
-        for state, learner in zip(states, learners):
+        for state, learner in zip(states, nested):
             learner.__dict__ = state
 
 
